@@ -15,7 +15,7 @@ LEVEL = "exploration"
 RULE = ("(a) Hypothesis rule-based state machine over one long-lived interpreter: up to 50 steps drawn from assemble(valid program), "
         "assemble(program with non-critical errors), assemble(program ending in a critical error), assemble(whose report handler "
         "raises on its k-th call - an assembly that crashes half way), run the CLI entry point; programs reuse the probe set's file "
-        "names and include paths on purpose. After every step a probe set of 10 programs (lazy evaluation, link-base solving, repeat, "
+        "names and include paths on purpose. After every step a probe set of 14 programs (lazy evaluation, link-base solving, repeat, headers shared unchanged with history programs and full of once-per-token diagnostics, "
         "include with .once, .end, errors with positions, warnings, unencodable literal, cross-file exports, CLI run with files) is "
         "re-assembled and every result (outcome class, base, bytes, output directives, diagnostics by severity, identifier, file, start, "
         "end; for the CLI probe exit status, stdout and files written) must equal the result a fresh process gave at the start of the "
@@ -39,6 +39,9 @@ def workdir():
 # ---------------------------------------------------------------------------
 # probe set: (name, tree, mains)
 
+# a header that several programs include unchanged; it is full of constructs whose diagnostics pdpy11 emits once per token
+HDR = "lines == 18\n\t.ascii /a/<400>\n\t.word 'ю'\nhh:\tnop\n2:\tbr 2 + 2\n\t.word 9\n"
+
 PROBES = [
     ("lazy", {"p.mac": "\tmov #late, r0\n\t.blkb n\n\t.even\nend:\t.word end - start, late * 2\nstart = 1000\nn = 3\nlate = n + 5\n"}, ["p.mac"]),
     ("linkbase", {"p.mac": "a = s\nb = e\n\t.link 2000 + (b - a)\ns:\tnop\n\tmov #e, r1\ne:\t.word ., s\n"}, ["p.mac"]),
@@ -51,6 +54,8 @@ PROBES = [
     ("unencodable", {"p.mac": "\tmov #'€, r0\n\t.ascii /ok/\n"}, ["p.mac"]),
     ("exports", {"p.mac": "x == 1\n\t.word y\n", "q.mac": "\t.byte x\n\t.even\nx = 5\ny::\tnop\n"}, ["p.mac", "q.mac"]),
     ("blkb-negative", {"p.mac": "\tnop\n\t.blkb 0 - 1\n\tnop\n"}, ["p.mac"]),
+    ("shared-header", {"p.mac": "\t.include \"lib/hdr.mac\"\n\t.word lines, 19\n\t.ascii <400>\n1:\tbr 1 + 2\n\tmov #'€, r0\n", "lib/hdr.mac": HDR}, ["p.mac"]),
+    ("shared-header-warnings", {"p.mac": "\t.include \"lib/hdr2.mac\"\n3:\tbr 3 + 2\n\t.word 'a'\n", "lib/hdr2.mac": "4:\tbr 4 + 2\n\t.word 'b', \"cd\"\n\tclr @r0\n"}, ["p.mac"]),
 ]
 CLI_PROBE = ("cli", {"p.mac": "\tmake_bin\n\tmake_raw \"out/r.raw\"\nv = -5\ntie3 = 7\ntie1 = 7\nzz = 7\ntie2 = 7\naa = 7\nl:\t.word l, v & 177777\nm:\nn:\t.word\n", "out/": None}, ["p.mac", "--lst", "--report-format=bare"])
 
@@ -159,6 +164,7 @@ VALID = [
     {"p.mac": "\t.link 3000\n\t.repeat 3 { .word . }\nq:\tmov #q, r0\n"},
     {"p.mac": "x = 5\n\t.byte x\n\t.even\nlab::\tnop\n", "q.mac": "\t.word lab\n"},
     {"p.mac": "\tmov #'A, r0\n\t.ascii /text/\n\t.even\n\tmake_bin\n"},
+    {"p.mac": "\tnop\n\t.include \"lib/hdr2.mac\"\n", "lib/hdr2.mac": "4:\tbr 4 + 2\n\t.word 'b', \"cd\"\n\tclr @r0\n"},
 ]
 INVALID = [
     {"p.mac": "\tnop\n\t.blkb 0 - 1\n\tnop\n"},
@@ -169,6 +175,8 @@ INVALID = [
     {"p.mac": "\t.link s\ns:\tnop\n"},
     {"p.mac": "a = a + 1\n\t.word a\n"},
     {"p.mac": "\t.extern all\nz::\tnop\n"},
+    {"p.mac": "\tnop\n\t.include \"lib/hdr.mac\"\n\t.word hh\n", "lib/hdr.mac": HDR},
+    {"p.mac": "\t.word 8\n", "q.mac": "\t.include \"lib/hdr.mac\"\n", "lib/hdr.mac": HDR},
 ]
 CRITICAL = [
     {"p.mac": "\tnop\n\t.ascii /never closed\n"},
